@@ -42,8 +42,13 @@ static int ref_min_distance(void)
 void h_c11_bpm_block(void)
 {
         int i, ref, got;
-        for(i = 0; i < KV_N; i++){ T[i] = kv_in_u8(); KV_ASSUME(T[i] < KV_SIGMA); }
-        for(i = 0; i < KV_M; i++){ P[i] = kv_in_u8(); KV_ASSUME(P[i] < KV_SIGMA); }
+#ifndef KV_FREE
+#define KV_FREE 100000
+#endif
+        /* the last KV_FREE symbols of text and pattern are symbolic, the others are the fixed symbol 1
+           (large shapes: a fully symbolic 64x64 problem does not finish) */
+        for(i = 0; i < KV_N; i++){ if(i >= KV_N - KV_FREE){ T[i] = kv_in_u8(); KV_ASSUME(T[i] < KV_SIGMA); }else{ T[i] = 1; } }
+        for(i = 0; i < KV_M; i++){ if(i >= KV_M - KV_FREE){ P[i] = kv_in_u8(); KV_ASSUME(P[i] < KV_SIGMA); }else{ P[i] = 1; } }
         ref = ref_min_distance();
         got = bpm_block(T, P, KV_N, KV_M);
         KV_CHECK(got == ref, "bpm_block == minimum over all text positions of the edit distance to the pattern");
